@@ -19,3 +19,56 @@ def run(ctx):
     import translate_prune
     translate_prune.check(ctx)       # pruning.py's literal elision translated to Gallina and linked to Cache/Prune.v by a theorem
     prune_corr.run_prune(ctx)       # plan -> run graph: dependencies between surviving nodes (Cache/Prune.v)
+    registry_order(ctx)
+
+
+def registry_order(ctx):
+    """With a registry: whatever is up to date, a call that executes in a run starts only after every call it directly
+    depends on (argument or add_dependency) has run in THAT run if that call has no value store, and after the store of a
+    rebuilt stored dependency was written.  Worlds with redundant dependencies (an explicit dependency parallel to a path
+    through a stored node) are included on purpose."""
+    import cache_corr
+    uj = core.use_repo()
+    rng = ctx.rng
+    shapes = {
+        # A -> B(stored) -> C and an explicit (transitively implied) dependency A -> C: when B is up to date, A still precedes C
+        "redundant-dep": [("source", [], [], False), ("call", [0], [], False), ("call", [1], [], True), ("call", [2], [1], False)],
+        "redundant-dep-2": [("call", [], [], False), ("call", [0], [], True), ("call", [1], [], True), ("call", [2], [0, 1], False),
+                            ("call", [3], [0], True)],
+    }
+    worlds = [(n, sp) for n, sp in shapes.items()] * ctx.n(3, 12) + [(None, None)] * ctx.n(30, 500)
+    for wi, (name, spec) in enumerate(worlds):
+        w = cache_corr.World(uj, rng, maxn=ctx.n(7, 9), spec=spec)
+        for step in range(ctx.n(4, 6)):
+            output = rng.choice([None, w.n - 1, rng.randrange(w.n)])
+            sigma = w.sigma()
+            nw = rng.choice([1, 3])
+            w.slow_writes = 0.002 if nw > 1 else 0
+            res = w.run(output, None, workers=nw, scheduler=rng.choice([None, "random"]))
+            w.slow_writes = 0
+            log = [(k, i) for k, i, _ in w.log]
+            pos = {}
+            for k, e in enumerate(log):
+                pos.setdefault(e, k)
+            ctx.case(("registry-order", name or wi, step, tuple(str(x) for x in sigma), output), nontrivial=len(log) > 0)
+            for i, m in enumerate(w.meta):
+                if m["kind"] != "call" or ("call", i) not in pos:
+                    continue
+                for j in set(m["args"]) | set(m["deps"]):
+                    mj = w.meta[j]
+                    if mj["kind"] == "call" and mj["store"] is None:
+                        if ("call", j) not in pos or pos[("call", j)] > pos[("call", i)]:
+                            ctx.fail("registry:start-before-dependency", "call %d ran in this run but call %d, which it directly depends on and which has no value "
+                                     "store, %s" % (i, j, "never ran" if ("call", j) not in pos else "started later"),
+                                     {"meta": w.meta, "sigma_before": sigma, "output": output, "log": log[:120], "world": name})
+                    elif mj["store"] is not None and not mj["is_src"] and ("write", mj["store"]) in pos and pos[("write", mj["store"])] > pos[("call", i)]:
+                        ctx.fail("registry:start-before-write", "call %d started before the store of rebuilt node %d, which it depends on, was written" % (i, j),
+                                 {"meta": w.meta, "sigma_before": sigma, "output": output, "log": log[:120], "world": name})
+            op = rng.choice(["none", "update", "delete"])
+            srcs = [m["store"] for m in w.meta if m["is_src"]]
+            st = [m["store"] for m in w.meta if m["store"] is not None and not m["is_src"]]
+            if op == "update" and srcs:
+                w.set_store(rng.choice(srcs), rng.randrange(1, 1000))
+            elif op == "delete" and st:
+                s_ = rng.choice(st)
+                w.stores[s_].v = w.stores[s_].t = None
